@@ -9,10 +9,10 @@ python3 tools/mkprops.py C01 "Arbitrary input is processed totally: no panic, ov
 Open Scope N_scope." Lexer_proofs:lex_next_no_panic,lex_progress,lex_total,lex_params_total,tokenize_shape Tree_proofs:run_tokens_total,run_total,pull_only_data,pull_req_only_data Conv_proofs:conv_total Lists_proofs:nlist_total,clist_total,spec_values_total,spec_tuple_total --section "$SEC"
 python3 tools/mkprops.py C02 "Compound-command header paths resolve to exactly the SCPI-designated handler" "From VF Require Import Base Gen_Errors Lexer Mnemonic Grammar Response Tree HeaderSpec Header_proofs MessageSpec Message_proofs.
 Open Scope N_scope." Header_proofs:resolve_sound,resolve_undefined,exec_undefined_invokes_nothing,resolve_complete,designation_unique,default_branch_omitted,default_leaf_omitted,node_spelled_out,unit_absolute,unit_common_keeps_context,unit_relative,message_starts_at_root Message_proofs:message_semantics --section "$SEC"
-python3 tools/mkprops.py C04 "Lexing is faithful: element boundaries and types follow IEEE 488.2 section 7" "From VF Require Import Base Gen_Errors Fmt Lexer Grammar Lexer_proofs Grammar_proofs.
-Open Scope N_scope." Grammar_proofs:lex_faithful Lexer_proofs:lex_total,lex_params_total,lex_progress,tokenize_shape,lex_error_class,mnemonic_13,chardata_13,unterminated_string,non_ascii_in_string,non_ascii_outside,block_truncated,block_bad_header,doubled_colon,colon_in_data,colon_in_common,comma_in_header,doubled_comma,comma_after_header_sep,missing_separator_after_chardata,missing_separator_after_string
-python3 tools/mkprops.py C05 "Units run in order; the first error aborts the message and is reported once" "From VF Require Import Base Gen_Errors Lexer Grammar Response Tree Tree_proofs HeaderSpec MessageSpec Message_proofs.
-Open Scope N_scope." Tree_proofs:hook_exactly_once,exec_invokes_at_most_once,first_error_aborts,stream_error_aborts,trace_bounded_by_units,leftover_is_108 Message_proofs:message_semantics,message_semantics_tokens,layout_independent,spec_units_ok_trace,spec_units_err_trace,spec_units_trace_extends --section "$SEC"
+python3 tools/mkprops.py C04 "Lexing is faithful: element boundaries and types follow IEEE 488.2 section 7" "From VF Require Import Base Gen_Errors Fmt Lexer Grammar Lexer_proofs Grammar_proofs Message_proofs2.
+Open Scope N_scope." Grammar_proofs:lex_faithful Message_proofs2:lex_faithful_trailing_separator,lex_empty Lexer_proofs:lex_total,lex_params_total,lex_progress,tokenize_shape,lex_error_class,mnemonic_13,chardata_13,unterminated_string,non_ascii_in_string,non_ascii_outside,block_truncated,block_bad_header,doubled_colon,colon_in_data,colon_in_common,comma_in_header,doubled_comma,comma_after_header_sep,missing_separator_after_chardata,missing_separator_after_string
+python3 tools/mkprops.py C05 "Units run in order; the first error aborts the message and is reported once" "From VF Require Import Base Gen_Errors Lexer Grammar Response Tree Tree_proofs HeaderSpec MessageSpec Message_proofs Message_proofs2.
+Open Scope N_scope." Tree_proofs:hook_exactly_once,exec_invokes_at_most_once,first_error_aborts,stream_error_aborts,trace_bounded_by_units,leftover_is_108 Message_proofs:message_semantics,message_semantics_tokens,layout_independent,spec_units_ok_trace,spec_units_err_trace,spec_units_trace_extends Message_proofs2:message_semantics_empty,message_semantics_trailing_separator --section "$SEC"
 python3 tools/mkprops.py C06 "A handler sees exactly its own unit's parameters; wrong arity is an error" "From VF Require Import Base Gen_Errors Lexer Grammar Response Tree Tree_proofs HeaderSpec MessageSpec Message_proofs.
 Open Scope N_scope." Tree_proofs:pull_only_data,pull_req_only_data,pull_consumes_only_data,pull_req_consumes_only_data,pull_first_datum,pull_next_datum,pull_at_unit_end,handler_stays_in_unit,leftover_is_108 Message_proofs:message_semantics,spec_prog_consumes_prefix --section "$SEC"
 FL='@(* the float the model reads for a decimal literal IS the correctly rounded IEEE-754 value (Flocq 4.1) *)
@@ -28,8 +28,8 @@ python3 tools/mkprops.py C07 "Integer parameters convert to the exactly rounded 
 python3 tools/mkprops.py C08 "Float, boolean and keyword parameters convert to the exact denoted value" "$QH" Conv_proofs:float_conv_dec,float_keywords,bool_numeric,bool_numeric_total,bool_onoff,accept_float,accept_bool,accept_bytes,conv_error_codes,conv_total "$FL" Float_proofs:dec2sf_correct_f64,dec2sf_correct_f32,dec2sf_core_correct_f64,dec2sf_core_correct_f32,dec_value_sign
 python3 tools/mkprops.py C09 "Response data is well-formed and denotes exactly the value that was formatted" "From VF Require Import Base Gen_Errors Gen_Consts ErrTable Fmt Lexer Grammar Response Conv Fmt_proofs.
 Open Scope N_scope." Fmt_proofs:int_text,fmt_N_digits,int_dec_rt,radix_rt,bool_rt,string_text,string_non_ascii,string_rt,string_exact_when_no_quote,block_text,block_too_long,block_rt,char_rt,expr_rt,error_text,error_rt,list_empty,list_text,int_list_rt
-python3 tools/mkprops.py C10 "Responses are framed exactly: ; between units, , between data, one final NL" "From VF Require Import Base Gen_Errors Gen_Consts Fmt Lexer Response Tree Resp_proofs.
-Open Scope N_scope." Resp_proofs:framing,unit_text_structure,event_writes_nothing --section "$SEC"
+python3 tools/mkprops.py C10 "Responses are framed exactly: ; between units, , between data, one final NL" "From VF Require Import Base Gen_Errors Gen_Consts Fmt Lexer Grammar Response Tree HeaderSpec MessageSpec Resp_proofs Message_proofs Message_proofs2.
+Open Scope N_scope." Resp_proofs:framing,unit_text_structure,event_writes_nothing Message_proofs2:spec_message_framing,message_semantics_empty,message_semantics_trailing_separator Message_proofs:message_semantics --section "$SEC"
 python3 tools/mkprops.py C11 "Fixed-capacity, allocation-free operation: overflow is an error, never a panic" "From VF Require Import Base Gen_Errors Gen_Consts Fmt Lexer Response Tree Resp_proofs Tree_proofs.
 Open Scope N_scope." Resp_proofs:run_never_exceeds_capacity,cap_fits,cap_prefix,cap_overflow,push_fits,push_error_is_225,push_appends Tree_proofs:run_total --section "$SEC"
 python3 tools/mkprops.py C17 "numeric_value parameters resolve MIN/MAX/DEF and never leave [min,max] (for ANY carrier type with a possibly partial order)" "From VF Require Import Base Gen_Errors Lexer Mnemonic MnemonicSpec Numeric Numeric_proofs." Numeric_proofs:keyword_tests,nv_keywords,nv_other_elements,nv_value_spec,build_fields,finish_max,finish_min,finish_default,finish_up_down,finish_value,value_in_range,resolved_in_range,out_of_range_only_for_values --section "Context {T : Type}.
